@@ -75,6 +75,9 @@ pub struct ValBuilder {
     pub conv: TyConv,
     /// allow the (slow) machine-output history
     pub allow_machine: bool,
+    /// build every value with Value::unit/left/right/product only (for checks whose subject is
+    /// not the value API: a defect in a decoder must not make the *harness* inconsistent)
+    pub constructors_only: bool,
 }
 
 fn garbage<'a, 'b>(src: &'a mut Src<'b>) -> impl FnMut() -> bool + use<'a, 'b> {
@@ -92,11 +95,14 @@ fn garbage<'a, 'b>(src: &'a mut Src<'b>) -> impl FnMut() -> bool + use<'a, 'b> {
 
 impl ValBuilder {
     pub fn new() -> Self {
-        ValBuilder { conv: TyConv::new(), allow_machine: true }
+        ValBuilder { conv: TyConv::new(), allow_machine: true, constructors_only: false }
     }
 
     /// Build the library value for (`ty`, `v`) through a history drawn from `src`.
     pub fn build(&mut self, src: &mut Src, ty: &Arc<RTy>, v: &RVal, depth: usize, tr: &mut Trace) -> Value {
+        if self.constructors_only {
+            return self.by_constructors(src, ty, v, depth, tr);
+        }
         let is_zero = *v == zero_value(ty);
         let word = ty.as_word();
         // weights: constructors first (simplest)
@@ -185,7 +191,7 @@ impl ValBuilder {
 
     /// Parts are mostly built by constructors again, sometimes through another history.
     fn sub(&mut self, src: &mut Src, ty: &Arc<RTy>, v: &RVal, depth: usize, tr: &mut Trace) -> Value {
-        if ty.size > 3 && src.chance(60) {
+        if !self.constructors_only && ty.size > 3 && src.chance(60) {
             self.build(src, ty, v, depth + 1, tr)
         } else {
             self.by_constructors(src, ty, v, depth, tr)
